@@ -234,7 +234,7 @@ def replay(ctx, d):
     cands = gen.tagged("WALK")
     if len(cands) < 50:
         raise vf.Infra("the generator produced only %d walks" % len(cands))
-    n_pause, n_idle, n_plain = ctx.pick((1, 4, 70), (8, 56, 300))
+    n_pause, n_idle, n_plain = ctx.pick((1, 4, 70), (10, 70, 420))
     chosen, cov, tot = select_walks(cands, ctx.seed, n_pause, n_idle, n_plain)
     order = {"pause": 0, "idle": 1, "plain": 2}
     chosen.sort(key=lambda c: order[c["_cls"]])
@@ -261,6 +261,12 @@ def replay(ctx, d):
     for r in obs:
         if len(r["obs"]) != len(r["ops"]) + 1:
             raise vf.Infra("walk %d: %d observations for %d operations" % (r["walk"], len(r["obs"]), len(r["ops"])))
+    # a request that the harness could not complete (network error, HTTP client timeout) is a harness problem
+    for r in obs:
+        for j, o in enumerate(r["obs"]):
+            if o["op"]["k"] == "open" and o["res"] not in ("ok", "error", "notfound"):
+                raise vf.Infra("walk %d: the request of operation %d %s ended with %r (feeds=%d)"
+                               % (r["walk"], j, json.dumps(o["op"]), o["res"], o["feeds"]))
     # ---------------------------------------------------------------- trace validation: verdicts + conformance
     vf.write_ndjson(os.path.join(d, "X03_trace.ndjson"), obs)
     tv = vf.tlc(ctx, "TraceHlsMuxer",
